@@ -418,7 +418,8 @@ func (group *Group) broadcastByRtmpMsg(msg base.RtmpMsg) {
 	}
 
 	// # 缓存关键信息，以及gop
-	if group.config.RtmpConfig.Enable || group.config.RtmpConfig.RtmpsEnable {
+	// relay push的session也是rtmp输出，它的metadata、seq header、gop同样来自rtmpGopCache
+	if group.config.RtmpConfig.Enable || group.config.RtmpConfig.RtmpsEnable || group.pushEnable {
 		if !group.rtmpGopCache.Feed(msg, lazyRtmpChunkDivider.GetEnsureWithoutSdf()) {
 			Log.Warnf("[%s] over frame number limit for a single gop in rtmp cache.", group.UniqueKey)
 		}
